@@ -257,6 +257,17 @@ func execNet(w []string) (res h.Result) {
 	nr := warm[key]
 	delete(warm, key)
 	warmMu.Unlock()
+	// a pre-warmed run is only usable while the first Grouping call of the case still lies ahead (a long generator run,
+	// e.g. the thorough tier, reaches the case after its schedule has passed): otherwise start afresh and wait
+	minSkew := 0
+	for k, x := range skews {
+		if k == 0 || x < minSkew {
+			minSkew = x
+		}
+	}
+	if nr != nil && time.Since(nr.t0) > time.Duration(minSkew)*time.Millisecond-300*time.Millisecond {
+		nr = nil
+	}
 	if nr == nil {
 		nr = startNetRun(seed, n)
 	}
